@@ -306,7 +306,7 @@ class SpdxE2EStream(Stream):
 
     def cases(self, tier, rng):
         import c18
-        n = {"quick": 170, "thorough": 1700}[tier]
+        n = {"quick": 150, "thorough": 1700}[tier]
         out = []
         for k in range(n):
             proj = json.loads(json.dumps(FIXED_SPDX[k])) if k < len(FIXED_SPDX) else spdx_variant(rng, e2e.gen_case(rng))
